@@ -780,6 +780,8 @@ class Summarizer:
         v = self.h.call(self, n, fname, args, kwargs, st) if hasattr(self.h, "call") else None
         if v is not None:
             return v
+        if fname == "bool" and len(n.args) == 1 and not n.keywords:
+            return BoolV(self.cond(n.args[0], st))       # the truth value of its argument
         v = self.builtin(fname, args, kwargs, st)
         if v is not None:
             return v
@@ -862,6 +864,9 @@ class Summarizer:
                 fs.append(self.compare(op, left, right, lnode, rn, st))
                 left, lnode = right, rn
             return And(*fs)
+        # bool(x) in a condition is the truth value of x
+        if isinstance(n, ast.Call) and isinstance(n.func, ast.Name) and n.func.id == "bool" and len(n.args) == 1 and not n.keywords:
+            return self.cond(n.args[0], st)
         v = self.expr(n, st)
         return self.truthy(v)
 
